@@ -27,7 +27,7 @@ import traceback
 import numpy as np
 
 ROOT = os.environ.get("VERIF_ROOT", os.path.dirname(os.path.dirname(os.path.realpath(__file__))))
-DEFAULT_BUDGET = {"quick": 150.0, "thorough": 1200.0}
+DEFAULT_BUDGET = {"quick": 240.0, "thorough": 1500.0}
 NWORKERS = int(os.environ.get("VERIF_WORKERS", "16"))
 
 
@@ -204,7 +204,7 @@ def run_cases(ctx, case_fn, indices, agg, nworkers=None, budget=None):
     procs = []
     for w in range(nworkers):
         p = mp.Process(target=_worker, args=(ctx, case_fn, indices, counter, paths[w]))
-        p.daemon = True
+        p.daemon = False  # checks may start multiprocessing pools of their own
         p.start()
         procs.append(p)
     for p in procs:
